@@ -24,6 +24,7 @@ func setupGenStubs() map[string]string {
 		"Gen_Conc.tla":       "---- MODULE Gen_Conc ----\nGenKeys == {1}\nGenWriters == {1}\nGenReaders == {1}\nGenProg == << [single |-> TRUE, ops |-> << <<\"Handle\", 1>> >>, end |-> \"commit\"] >>\nGenReadCalls == { <<\"len\">> }\nGenMaxReads == 1\nGenBroken == \"none\"\n====\n",
 		"Gen_Context.tla":    "---- MODULE Gen_Context ----\nGenMaxLen == 1\n====\n",
 		"Gen_ClientIP.tla":   "---- MODULE Gen_ClientIP ----\nGenMaxLines == 1\nGenMaxEntries == 1\nGenMaxPrefix == 1\nGenWithEmpty == TRUE\n====\n",
+		"Gen_ObsServe.tla":   "---- MODULE Gen_ObsServe ----\nGenTable == << [m |-> \"GET\", pat |-> <<\"/\">>, opt |-> \"none\"] >>\nGenCfg == [noMethod |-> FALSE, autoOptions |-> FALSE]\nGenHost == <<\"a\">>\n====\n",
 		"obs.ndjson":         "",
 	}
 	m := map[string]string{"Gen_Match.tla": g.tla(false), "Gen_Serve.tla": sg.tla(), "Gen_Router.tla": rg.tla(), "Gen_Probe.tla": rg.probeTLA([][][2]int{{{1, 1}}})}
